@@ -256,6 +256,27 @@ func c01Atoms(thorough bool) []qAtom {
 		add("dotted-2hop-set", true, rm.Cmp{L: fn("reports.places.name"), Op: "=", R: S("y")})
 		add("dotted-2hop-set", true, rm.Cmp{L: fn("places.people.reports"), Op: "=", R: S("e1")})
 	}
+	// less common argument shapes: three-element and repeating arrays, equal and reversed bounds, between behind a dot
+	add("arg-shapes", true, rm.In{L: lhs("i"), Vals: []rm.Val{I(4), I(5), I(6)}})
+	add("arg-shapes", true, rm.In{L: lhs("i"), Not: true, Vals: []rm.Val{I(4), I(4), I(6)}})
+	add("arg-shapes", true, rm.In{L: lhs("s"), Vals: []rm.Val{S("a"), S("a"), S("")}})
+	add("arg-shapes", true, rm.In{L: anyOf("roles"), Vals: []rm.Val{S("x"), S("b"), S("x")}})
+	add("arg-shapes", true, rm.Between{L: lhs("i"), Lo: I(5), Hi: I(5)})
+	add("arg-shapes", true, rm.Between{L: lhs("i"), Not: true, Lo: I(5), Hi: I(5)})
+	add("arg-shapes", true, rm.Between{L: lhs("i"), Lo: I(6), Hi: I(4)})
+	add("arg-shapes", true, rm.Between{L: lhs("f"), Lo: F(4.5), Hi: F(4.5)})
+	add("arg-shapes", true, rm.Between{L: lhs("boss.i"), Lo: I(4), Hi: I(6)})
+	add("arg-shapes", true, rm.Between{L: lhs("t"), Lo: T(qT0), Hi: T(qT0)})
+	for _, fn := range []func(string) rm.Lhs{anyOf, allOf} {
+		for _, op := range []string{"!=", "<", ">=", "contains"} {
+			add("arg-shapes", true, rm.Not{A: rm.Cmp{L: fn("roles"), Op: op, R: S("a")}})
+		}
+		add("arg-shapes", true, rm.Not{A: rm.Cmp{L: fn("reports.s"), Op: "!=", R: S("a")}})
+		add("arg-shapes", true, rm.Not{A: rm.In{L: fn("roles"), Vals: []rm.Val{S("a"), S("x")}}})
+	}
+	add("arg-shapes", true, rm.Not{A: rm.IsEmpty{Sym: "roles"}})
+	add("arg-shapes", true, rm.Not{A: rm.Cmp{L: anyOf("roles"), Op: "=", R: S("a")}})
+	add("arg-shapes", true, rm.Not{A: rm.Cmp{L: countOf("roles"), Op: ">", R: I(1)}})
 	// symbols registered under a name that differs from the stored key
 	for _, op := range []string{"=", "!=", "<", "contains"} {
 		add("symbol-with-key", true, rm.Cmp{L: lhs("sk"), Op: op, R: S("a")})
